@@ -211,8 +211,41 @@ def shard_exotic(args):
     return acc.export()
 
 
+def shard_long_text(args):
+    """One combined SGR sequence of 36 / 61 characters starting at EVERY offset of a long text (0 .. limit): whatever a parser does
+    every so-many characters (chunking, windows, look-back limits), some offset puts the sequence across it."""
+    tier, seed, idx, nshards = args
+    acc = Acc(seed=seed, sample_stride=997)
+    limit = 20000 if tier == "thorough" else 7700
+    seqs = ["\x1b[0;1;3;4;5;7;31;41;39;49;2;32;45m", "\x1b[" + ";".join(["1", "4", "32", "44"] * 7) + "m"]
+    for off in range(idx, limit, nshards):
+        for q, seq in enumerate(seqs):
+            if q == 1 and off % 2:
+                continue
+            s = "a" * off + seq + "b" * 30 + "\x1b[0m" + "c"
+            acc.case(True, key=("long", off, q), sample=lambda: {"lead": off, "sequence": seq})
+            check_string(acc, s, {"long_text": True, "lead": off, "sequence": seq})
+    return acc.export()
+
+
+def twins(acc):
+    from mc import fresh
+
+    n, findings = fresh.twin_findings()
+    for _ in range(n):
+        acc.case(True)
+    acc.transitions += n
+    for kind, case, msg in findings:
+        acc.failure({"order_dependent": "C05:terminal_string_depends_on_what_was_rendered_before", "roundtrip": "C05:roundtrip_formatting", "terminal_meaning": "C05:terminal_string_formatting"}[kind], case, msg)
+
+
 def run(ctx):
     rep = Report()
+    acc = Acc(seed=ctx.seed)
+    twins(acc)
+    rep.merge(acc, "bool_int_twin_values_in_fresh_processes")
+    for d in ctx.pmap(shard_long_text, [(ctx.tier, ctx.seed, i, 32) for i in range(32)]):
+        rep.merge(d, "long_text_every_offset")
     for d in ctx.pmap(shard_exotic, [(ctx.tier, ctx.seed, i) for i in range(8)]):
         rep.merge(d, "long_and_exotic_values")
     for d in ctx.pmap(shard_long_params, [(ctx.tier, ctx.seed, i) for i in range(4)]):
@@ -248,7 +281,12 @@ def replay(ctx, case):
     acc = Acc()
     if case.get("kind") == "derived_roundtrip":
         return []
-    if "s" in case:
+    if case.get("long_text"):
+        s = "a" * case["lead"] + case["sequence"] + "b" * 30 + "\x1b[0m" + "c"
+        check_string(acc, s, case)
+    elif "style_colour_bool_int" in case:
+        twins(acc)
+    elif "s" in case:
         check_string(acc, case["s"], case)
     else:
         roundtrip(acc, [(t, k) for t, k in case["runs"]], case)
